@@ -166,6 +166,8 @@ def clause_body(t):
         return op + ' ' + ', '.join(name(n) for n in it)
     if op == 'rename':
         return 'rename ' + ', '.join('%s to %s' % (name(a), name(b)) for a, b in it)
+    if op == 'apply':
+        return 'apply %s %s %s' % (name(it[0]), it[2], name(it[1]))
     if op == 'unpivot':
         return 'unpivot %s, %s' % (name(it[0]), name(it[1]))
     if op == 'sub':
